@@ -39,10 +39,19 @@ type c48Raw struct {
 func c48RawCheck(c c48Raw) (string, error) {
 	ri := RawInstruction{Op: c.Op, Jt: c.Jt, Jf: c.Jf, K: c.K}
 	d := ri.Disassemble()
-	if _, isRaw := d.(RawInstruction); isRaw {
+	_, isRaw := d.(RawInstruction)
+	// the package-level functions over slices are the same mapping
+	ds, all := Disassemble([]RawInstruction{ri, ri})
+	if len(ds) != 2 || ds[0] != d || ds[1] != d || all == isRaw {
+		return "", fmt.Errorf("Disassemble([]RawInstruction{r, r}) = %#v, allDecoded=%v for r = %s, but r.Disassemble() = %#v", ds, all, c48Fmt(ri), d)
+	}
+	if isRaw {
 		return "", nil
 	}
 	name := bpfTypeName(d)
+	if backs, err := Assemble(ds); err == nil && (len(backs) != 2 || backs[0] != ri || backs[1] != ri) {
+		return name, fmt.Errorf("Assemble(Disassemble([]RawInstruction{r, r})) = %v for r = %s", backs, c48Fmt(ri))
+	}
 	back, err := d.Assemble()
 	if err != nil {
 		return name, fmt.Errorf("raw %s disassembles to %#v, which Assemble rejects: %v", c48Fmt(ri), d, err)
@@ -343,6 +352,14 @@ func c48TypedCheck(c bpfIns) (bool, error) {
 	d := raw.Disassemble()
 	if d != x {
 		return true, fmt.Errorf("%#v assembles to %s, which disassembles to %#v", x, c48Fmt(raw), d)
+	}
+	// the package-level functions over slices are the same mapping
+	raws, err := Assemble([]Instruction{x, x})
+	if err != nil || len(raws) != 2 || raws[0] != raw || raws[1] != raw {
+		return true, fmt.Errorf("Assemble([]Instruction{x, x}) = %v, %v for x = %#v, but x.Assemble() = %s", raws, err, x, c48Fmt(raw))
+	}
+	if ds, all := Disassemble(raws); len(ds) != 2 || ds[0] != x || ds[1] != x || !all {
+		return true, fmt.Errorf("Disassemble(Assemble([]Instruction{x, x})) = %#v, allDecoded=%v for x = %#v", ds, all, x)
 	}
 	return true, nil
 }
